@@ -1,6 +1,6 @@
 ------------------------------ MODULE MC_auth ------------------------------
 EXTENDS Auth
-CounterTuple(r, c, v) == <<r, c, v>>
+CounterTuple(r, c, v) == IF v = 3 THEN <<"any", c, v>> ELSE <<r, c, v>>
 AllAccts == {"r1", "r2", "tss", "out"}
 SomeAccts == {"r1", "tss", "out"}
 AllChains == {"one", "two", "tss"}
